@@ -36,6 +36,7 @@ class Run:
         self.ents = []
         self.calls = {}
         self.hints = []
+        self.direct = False
         meths = {'process'}
         for ln in lines:
             t = ln.split()
@@ -60,6 +61,8 @@ class Run:
                 self.ops.append(t[1:])
             elif t[0] == 'hint':
                 pass
+            elif t[0] == 'mode':
+                self.direct = t[1] == 'direct'
             else:
                 raise ValueError(f'bad scenario line {ln!r}')
         self.meths = meths
@@ -106,6 +109,11 @@ class Run:
             cls = event_handler(*names, **kw)(cls)
             self.classes.append(cls)
             self.kinds.append(kind)
+        for t, (cls, kind) in enumerate(zip(self.classes, self.kinds)):
+            if kind in ('c', 'ctrl'):
+                setattr(self.CtrlRoot, f'cref_{t}', desper.ComponentReference(cls))
+            else:
+                setattr(self.CtrlRoot, f'pref_{t}', desper.ProcessorReference(cls))
         self.objs = {}
         for oid, cid in self.objdecl:
             o = self.classes[cid]()
@@ -176,8 +184,68 @@ class Run:
         elif k == 'dispatch':
             args, kwargs = dec_args(t[2])
             w.dispatch(t[1], *args, **kwargs)
+        elif k == 'via':
+            return self.via(self.objs[int(t[1])], t[2], t[3:])
         else:
             raise ValueError(t)
+        return '-'
+
+    def via(self, k, kind, a):
+        """A shorthand through controller k, or (mode direct) the World call it stands for."""
+        oid = lambda c: 'None' if c is None else str(c._oid)      # noqa
+        C = lambda i: self.classes[int(i)]                        # noqa
+        O = lambda i: self.objs[int(i)]                           # noqa
+        if self.direct:
+            if k.world is None:
+                raise AttributeError('controller without world')
+            w, e = k.world, k.entity
+            if kind in ('add', 'cset'):
+                w.add_component(e, O(a[0]))
+            elif kind == 'remove':
+                return oid(w.remove_component(e, C(a[0])))
+            elif kind == 'cdel':
+                w.remove_component(e, C(a[0]))
+            elif kind == 'has':
+                return str(w.has_component(e, C(a[0])))
+            elif kind in ('get', 'cget'):
+                return oid(w.get_component(e, C(a[0])))
+            elif kind == 'comps':
+                return ','.join(map(str, sorted(c._oid for c in w.get_components(e)))) or '-'
+            elif kind == 'delete':
+                w.delete_entity(e)
+            elif kind == 'pget':
+                return oid(w.get_processor(C(a[0])))
+            elif kind == 'pset':
+                w.add_processor(O(a[0]))
+            elif kind == 'pdel':
+                w.remove_processor(C(a[0]))
+            return '-'
+        if kind == 'add':
+            k.add_component(O(a[0])) if int(a[0]) % 2 else desper.add_component(k, O(a[0]))
+        elif kind == 'remove':
+            return oid(k.remove_component(C(a[0])) if int(a[0]) % 2 else desper.remove_component(k, C(a[0])))
+        elif kind == 'has':
+            return str(k.has_component(C(a[0])) if int(a[0]) % 2 else desper.has_component(k, C(a[0])))
+        elif kind == 'get':
+            return oid(k.get_component(C(a[0])) if int(a[0]) % 2 else desper.get_component(k, C(a[0])))
+        elif kind == 'comps':
+            return ','.join(map(str, sorted(c._oid for c in k.get_components()))) or '-'
+        elif kind == 'delete':
+            k.delete()
+        elif kind == 'cget':
+            return oid(getattr(k, f'cref_{a[0]}'))
+        elif kind == 'cset':
+            setattr(k, f'cref_{self.classes.index(type(O(a[0])))}', O(a[0]))
+        elif kind == 'cdel':
+            delattr(k, f'cref_{a[0]}')
+        elif kind == 'pget':
+            return oid(getattr(k, f'pref_{a[0]}'))
+        elif kind == 'pset':
+            setattr(k, f'pref_{self.classes.index(type(O(a[0])))}', O(a[0]))
+        elif kind == 'pdel':
+            delattr(k, f'pref_{a[0]}')
+        else:
+            raise ValueError(kind)
         return '-'
 
     def snapshot(self):
